@@ -141,27 +141,47 @@ Theorem C05_ssa_ignores_gc :
 Proof. exact ssa_ignores_gc. Qed.
 Print Assumptions C05_ssa_ignores_gc.
 
-(* WHOLE-RUN SIMULATION — NOT CLOSED.  Full statements (visible, unproved):
-     C05_stream_sim :
-       forall p steps' xy, sim_ok p steps' -> no_premature_reuse p steps' = true ->
-         stream_eval p steps' xy = ssa_eval p steps' xy
-     C05_stream_eq_whole :
-       forall p steps g xy, wf_prog p steps = true -> consts_tabled p steps = true ->
-         gc_fixed steps = Some g -> stream_eval p g xy = ssa_eval p steps xy
-   (consts_tabled — every constant operand in a value position is in
-   prog.Constants — is evaluated on every generated program: it fails only for
-   the offset operand of index instructions, which the index circuit does not
-   read; no streamed value differs on those programs.)
-   Proved ingredients: per circuit step C05_stream_sim_circuit, per alias step
-   C05_stream_sim_alias / C05_stream_sim_operand, C05_gc_sound (the hypothesis
-   no_premature_reuse holds for Program.GC's output), C05_ssa_ignores_gc, and
-   in StreamGcProof.v the allocator facts each step of the induction needs
-   (operand_ids_inv, aid_new, setids_inv, gcw_inv, alias_prov_ok, init_ginv).
-   Missing: the induction along the gc'd list that carries, next to [ginv],
-   the relation "for every value that is still an operand, the bits found on
-   its wire ids equal its bits in the reference environment" through the four
-   kinds of steps, the same relation for the initial state (argument wires,
-   zero/one circuits, constants), and the read-out at ret. *)
+(* STREAMING = WHOLE CIRCUIT (FULL).  For every program description p, every
+   step list that is well-formed (wf_prog), whose constant operands in value
+   positions are constants of prog.Constants (consts_tabled) and whose ret
+   instruction returns as many bits as prog.Outputs declares (outbits_ok), and
+   for every pair of inputs xy: executing the list Program.GC returns in
+   streaming mode — wire ids handed out by the WireAllocator, recycled through
+   the free lists after gc instructions, alias results rewired in place,
+   circuits walked gate by gate on the persistent store through the in/out/tmp
+   indirection — returns exactly the bits that evaluating the original step
+   list with separate storage for every value returns (ssa_eval: the reading of
+   Program.Circuit as an evaluator, i.e. the whole-circuit result), including
+   agreement on error returns.
+   wf_prog && outbits_ok is true on every generated program of every run;
+   consts_tabled fails only for the offset operand of index instructions
+   (which the index circuit does not read; no streamed value differs there —
+   those programs are covered by the oracle and the correspondence only).
+   Proof: one induction along the gc'd list carrying the allocator's ownership
+   invariant and "the bits on the wire ids of every value that is still an
+   operand equal its reference bits" (StreamGcProof.v: step_sim, gcs_sim,
+   run_sim, init_sinv), using C05_stream_sim_circuit / _alias / _operand,
+   C05_gc_sound_static and C05_ssa_ignores_gc. *)
+Theorem C05_stream_eq_whole :
+  forall (p : sprog) (steps g : list instr) (xy : list bool),
+    wf_prog p steps = true -> consts_tabled p steps = true -> outbits_ok p steps = true ->
+    gc_fixed steps = Some g ->
+    stream_eval p g xy = ssa_eval p steps xy.
+Proof. exact stream_eq_whole. Qed.
+Print Assumptions C05_stream_eq_whole.
+
+(* the simulation on the streamed list itself, together with the fact that
+   this list satisfies no_premature_reuse.  (The simulation is proved for the
+   lists Program.GC produces — the only ones that are streamed — by carrying
+   the allocator invariant; the variant for an arbitrary list under the bare
+   hypothesis no_premature_reuse is not proved.) *)
+Theorem C05_stream_sim :
+  forall (p : sprog) (steps g : list instr) (xy : list bool),
+    wf_prog p steps = true -> consts_tabled p steps = true -> outbits_ok p steps = true ->
+    gc_fixed steps = Some g ->
+    no_premature_reuse p g = true /\ stream_eval p g xy = ssa_eval p g xy.
+Proof. exact stream_sim_gc. Qed.
+Print Assumptions C05_stream_sim.
 
 (* sendArgument / receiveArgument: for every argument description (name, type
    string, size, nested members to any depth within the fuel) whose lengths
